@@ -412,8 +412,12 @@ pub fn broadcast(a: &Args) -> i32 {
         let opts = FleetOptions { default_timeout: Duration::from_millis(500), retry_policy: RetryPolicy { max_attempts: 2, delay: Duration::from_millis(2) } };
         let bf = if kind == "blocking" { Some(Fleet::with_options(cfgs.clone(), opts).unwrap()) } else { None };
         let af = if kind != "blocking" { Some(AsyncFleet::with_options(cfgs.clone(), opts).unwrap()) } else { None };
-        for req in 0..8u8 {
-            let want: Vec<&str> = (0..3).filter(|b| req >> b & 1 == 1).map(|b| tags_all[b]).collect();
+        for req in 0..24u8 {
+            // every tag subset, in ascending order, in descending order, and with its first tag repeated at the end
+            let (req, variant) = (req % 8, req / 8);
+            let mut want: Vec<&str> = (0..3).filter(|b| req >> b & 1 == 1).map(|b| tags_all[b]).collect();
+            if variant == 1 { if want.len() < 2 { continue; } want.reverse(); }
+            if variant == 2 { if want.is_empty() { continue; } let f = want[0]; want.push(f); }
             let before: Vec<u64> = nodes.iter().map(|x| x.served.load(Ordering::SeqCst)).collect();
             let res: Vec<(String, bool)> = match (&bf, &af) {
                 (Some(f), _) => f.broadcast_json("/m", Some(&json!({"r": req})), &want).into_iter().map(|(k, v)| (k, v.succeeded())).collect(),
